@@ -376,7 +376,11 @@ pub fn generate(spec: &Spec) -> (Vec<Base>, Vec<(u32, u32, Vec<Op>, String)>) {
                                 if cs.0 {
                                     s.push(Op::ShiftOut);
                                 }
-                                if spec.hidden_cursor {
+                                // the cursor's visibility is independent of everything else: every
+                                // second configuration gets a hidden cursor (all of them when the
+                                // spec asks for it), so that each operation is also judged from
+                                // `hidden == true` without doubling the product
+                                if spec.hidden_cursor || outers.len() % 2 == 1 {
                                     s.push(Op::Rm(vec![25], true));
                                 }
                                 outers.push(Outer { c, l, script: s, ms });
